@@ -143,6 +143,7 @@ struct World : SpawnHandler {
   Scenario pending;           // what a manifest regeneration will write
   bool has_pending = false;
   bool log_restated = false;   // a generator command replaced the build log during the current invocation
+  bool editor_ever = false;    // some earlier invocation of this history ran with the external editor
   std::map<std::string, int> version;
   std::map<std::string, int> inc_version;   // which hidden includes a source pulls in (no effect on what is computed)
   std::set<std::string> emptied;            // sources whose content is currently empty
